@@ -101,6 +101,12 @@ def export():
             "custom_groom": any(("groom" in vars(b) or "ungroom" in vars(b)) for b in c.__mro__ if b is not Aggregate),
             "elementlist": issubclass(c, B.ElementList),
             "bytag": getattr(M, name, None) is c,
+            # class attributes that LOOK like declarations but are not usable ones: an Element wrapped in a tuple / list
+            # (a stray comma) or an Element class that was never instantiated
+            "odd": sorted(n for b in c.__mro__ if b is not Aggregate and b is not B.ElementList and b is not list and b is not object
+                          for n, v in vars(b).items()
+                          if (isinstance(v, (tuple, list)) and any(isinstance(x, (Types.Element, Types.Unsupported)) for x in v))
+                          or (isinstance(v, type) and issubclass(v, Types.Element))),
             "props": sorted(n for b in c.__mro__ if b is not Aggregate and b is not B.ElementList
                             for n, v in vars(b).items() if isinstance(v, property)),
             "bases": [b.__name__ for b in c.__mro__[1:] if b is not Aggregate and b is not list and b is not object],
@@ -146,11 +152,11 @@ def to_tla(schema, typelist):
         attrs = ", ".join('[a |-> %s, k |-> %s, ty |-> %s, req |-> %s, tag |-> %s, cls |-> %s]' % (
             tla_str(a["a"]), tla_str(a["k"]), tla_str(a["ty"]), "TRUE" if a["req"] else "FALSE",
             tla_str(a["tag"]), tla_str(a["cls"])) for a in s["attrs"])
-        cl.append('%s |-> [attrs |-> <<%s>>, om |-> %s, omf |-> %s, rm |-> %s, rmf |-> %s, custom |-> %s, groom |-> %s, elist |-> %s, bytag |-> %s, props |-> {%s}]' % (
+        cl.append('%s |-> [attrs |-> <<%s>>, om |-> %s, omf |-> %s, rm |-> %s, rmf |-> %s, custom |-> %s, groom |-> %s, elist |-> %s, bytag |-> %s, props |-> {%s}, odd |-> {%s}]' % (
             name, attrs, sset(s["om"]), sset(s["omf"]), sset(s["rm"]), sset(s["rmf"]),
             "TRUE" if s["custom_validate"] else "FALSE", "TRUE" if s["custom_groom"] else "FALSE",
             "TRUE" if s["elementlist"] else "FALSE", "TRUE" if s["bytag"] else "FALSE",
-            ", ".join(tla_str(x) for x in sorted(set(s["props"])))))
+            ", ".join(tla_str(x) for x in sorted(set(s["props"]))), ", ".join(tla_str(x) for x in sorted(set(s["odd"])))))
     out.append("Schema == [" + ",\n  ".join(cl) + "]")
     tags = sorted(set(schema) | {a["tag"] for s in schema.values() for a in s["attrs"]})
     out.append("TagTable == [t \\in {%s} |-> CASE %s]" % (
